@@ -49,9 +49,9 @@ func (r *Reader) readSecondStage(bufMeta []bufferMeta) (rb []byte, err error) {
 		}
 
 		numIndexRecords = len(indexBuffer) / 24 // Three fields, {epoch, offset, len}, 8 bytes each
-		// rb = make([]byte, 0)
-		rb = make([]byte, totalDatalen)
-		var rbCursor int
+		// totalDatalen is only an estimate when compression is on: use it as the
+		// initial capacity and let append grow the buffer when it is exceeded.
+		rb = make([]byte, 0, totalDatalen)
 		for i := 0; i < numIndexRecords; i++ {
 			intervalStartEpoch := io.ToInt64(indexBuffer[i*24:])
 			offset := io.ToInt64(indexBuffer[i*24+8:])
@@ -76,17 +76,8 @@ func (r *Reader) readSecondStage(bufMeta []bufferMeta) (rb []byte, err error) {
 			rbTemp := RewriteBuffer(buffer,
 				uint32(varRecLen), uint32(numVarRecords), uint32(md.Intervals), uint64(intervalStartEpoch))
 
-			// rb = append(rb, rbTemp...)
-			if (rbCursor + len(rbTemp)) > totalDatalen {
-				totalDatalen += totalDatalen
-				rb2 := make([]byte, totalDatalen)
-				copy(rb2[:rbCursor], rb[:rbCursor])
-				rb = rb2
-			}
-			copy(rb[rbCursor:], rbTemp)
-			rbCursor += len(rbTemp)
+			rb = append(rb, rbTemp...)
 		}
-		rb = rb[:rbCursor]
 		fp.Close()
 
 		totalBuf = append(totalBuf, rb...)
